@@ -19,11 +19,11 @@ type MessageUserMix struct {
 	F  [2]int64
 	G  UEnum `mavenum:"uint16"`
 	H  int8
-	X1 uint8     `mavext:"true"`
-	X2 uint32    `mavext:"true"`
-	X3 [2]UEnum  `mavext:"true" mavenum:"int32"`
-	X4 string    `mavext:"true" mavlen:"4"`
-	X5 float64   `mavext:"true"`
+	X1 uint8    `mavext:"true"`
+	X2 uint32   `mavext:"true"`
+	X3 [2]UEnum `mavext:"true" mavenum:"int32"`
+	X4 string   `mavext:"true" mavlen:"4"`
+	X5 float64  `mavext:"true"`
 }
 
 func (*MessageUserMix) GetID() uint32 { return 60000 }
